@@ -450,7 +450,11 @@ func Chunks(s string) [][]byte {
 	}
 	var out [][]byte
 	for _, c := range strings.Split(s, ",") {
-		out = append(out, mustHex(c))
+		if c == "_" {
+			out = append(out, []byte{})
+		} else {
+			out = append(out, mustHex(c))
+		}
 	}
 	return out
 }
@@ -461,7 +465,7 @@ func ChunksString(cs [][]byte) string {
 	}
 	ss := make([]string, len(cs))
 	for i, c := range cs {
-		ss[i] = hx(c)
+		ss[i] = Hxe(c)
 	}
 	return strings.Join(ss, ",")
 }
